@@ -19,20 +19,41 @@ static T wrapu(u128 v)
 
 #define STAT(op) ([]() -> OpStat& { static OpStat& s = reg("C17", op, tname<T>()); return s; }())
 
+// witness text is only built when it is needed (the exhaustive 16-bit sweep makes 10^11 calls)
+template <class T>
+struct Wit
+{
+    T a, b, c;
+    int n;
+    std::string extra;
+    std::string str() const
+    {
+        return "\"a\":\"" + hexv(a) + "\",\"b\":\"" + hexv(b) + "\",\"c\":\"" + hexv(c) + "\"" + (n >= 0 ? ",\"n\":" + std::to_string(n) : std::string()) + extra;
+    }
+    Wit with(const std::string& e) const
+    {
+        Wit w = *this;
+        w.extra += e;
+        return w;
+    }
+};
+template <class T>
+static std::string operator+(const std::string& s, const Wit<T>& w) { return s + w.str(); }
+
 // scalar result, model value, lane 0 of the batch form
 template <class T, class R>
-static void judge(OpStat& st, const char* cls, R scalar, R model, bool have_batch, R batch0, const std::string& wit, unsigned cell, bool (*eq)(R, R))
+static void judge(OpStat& st, const char* cls, R scalar, R model, bool have_batch, R batch0, const Wit<T>& wit, unsigned cell, bool (*eq)(R, R))
 {
     if (!st.on)
         return;
     st.evals++;
     st.cell(cell);
     if (!eq(scalar, model))
-        viol(st, cls, "{" + wit + ",\"scalar\":\"" + hexv(scalar) + "\",\"model\":\"" + hexv(model) + "\",\"against\":\"model\"}");
+        viol(st, cls, "{" + wit.str() + ",\"scalar\":\"" + hexv(scalar) + "\",\"model\":\"" + hexv(model) + "\",\"against\":\"model\"}");
     else if (have_batch && !eq(scalar, batch0))
-        viol(st, cls, "{" + wit + ",\"scalar\":\"" + hexv(scalar) + "\",\"batch_lane0\":\"" + hexv(batch0) + "\",\"against\":\"batch\"}");
+        viol(st, cls, "{" + wit.str() + ",\"scalar\":\"" + hexv(scalar) + "\",\"batch_lane0\":\"" + hexv(batch0) + "\",\"against\":\"batch\"}");
     else if (st.want_sample())
-        st.samples.push_back("{" + wit + ",\"scalar\":\"" + hexv(scalar) + "\"}");
+        st.samples.push_back("{" + wit.str() + ",\"scalar\":\"" + hexv(scalar) + "\"}");
 }
 template <class R>
 static bool eq_exact(R a, R b) { return a == b; }
@@ -50,7 +71,7 @@ static void ints_one(T a, T b, T c, int n, int ca, int cb)
     i128 x = a, y = b, z = c;
     u128 ux = (u128)(U)a, uy = (u128)(U)b;
     U ua = (U)a, ub = (U)b;
-    std::string wit = "\"a\":\"" + hexv(a) + "\",\"b\":\"" + hexv(b) + "\",\"c\":\"" + hexv(c) + "\",\"n\":" + std::to_string(n);
+    const Wit<T> wit { a, b, c, n, std::string() };
     unsigned cell = (unsigned)(ca << 4 | cb);
     B va(a), vb(b), vc(c);
     mark_case("scalar_int", tname<T>(), &a, sizeof a);
@@ -111,7 +132,7 @@ static void ints_one(T a, T b, T c, int n, int ca, int cb)
         u128 p = 1;
         for (int i = 0; i < e; ++i)
             p *= (u128)x;
-        judge<T, T>(STAT("pow_int_exponent"), "unclassified", (T)xs::pow(a, e), wrapu<T>(p), false, (T)0, wit + ",\"e\":" + std::to_string(e), cell, eq_exact<T>);
+        judge<T, T>(STAT("pow_int_exponent"), "unclassified", (T)xs::pow(a, e), wrapu<T>(p), false, (T)0, wit.with(",\"e\":" + std::to_string(e)), cell, eq_exact<T>);
     }
     {
         using U2 = typename std::conditional<std::is_signed<T>::value, U, typename std::make_signed<T>::type>::type;
@@ -139,7 +160,7 @@ static void ints(uint64_t seed)
                 ints_one<T>(wrapu<T>((u128)a), wrapu<T>((u128)b), hostile<T>(rng, c3), (a + b) % BITS, 14, 14);
     if (sizeof(T) == 2)
     {
-        uint64_t stride = sweep_stride(4099), start = seed % stride;
+        uint64_t stride = sweep_stride(4099) * (ctx().tier ? 17 : 1), start = seed % stride; // thorough: every 17th pair (the scalar forms cost ~1.6 us per pair and ~50 ops)
         for (uint64_t p = start; p < (1ull << 32); p += stride)
             ints_one<T>(wrapu<T>((u128)(p >> 16)), wrapu<T>((u128)(p & 0xffff)), hostile<T>(rng, c3), (int)(p % BITS), 14, 14);
     }
@@ -171,7 +192,7 @@ static void flts(uint64_t seed)
             c = (T)0.75;
         if (it % 5 == 0)
             c = -ref::mul(a, b); // exact cancellation: sign of a zero result of the fma family
-        std::string wit = "\"a\":\"" + hexv(a) + "\",\"b\":\"" + hexv(b) + "\",\"c\":\"" + hexv(c) + "\"";
+        const Wit<T> wit { a, b, c, -1, std::string() };
         unsigned cell = (unsigned)(c1 << 5 | c2);
         B va(a), vb(b), vc(c);
         mark_case("scalar_fp", tname<T>(), &a, sizeof a);
